@@ -15,7 +15,7 @@ CONTRACTS = {
     'get_combinations_from_columns': dict(
         strings='opaque',
         params={'all_columns': 'list[str]', 'args': ARGS_COMB},
-        modifies=['param:args'],
+        modifies=['param:args.combination_number_upper_bound'],
         requires=[
             ('distinct_names', 'all(all_columns[i] != all_columns[j] for j in range(len(all_columns)) for i in range(j))'),
             ('label_present', 'args.label_column in all_columns'),
@@ -87,6 +87,7 @@ CONTRACTS = {
         ],
     ),
     'prior_combinations_sample': dict(
+        generics={'Comb': 'combinations'},
         params={'combinations': 'list[Comb]', 'args': ARGS_CAP},
         globals={'GLOBAL_PRIOR_COMB_COUNTS': 'counter[Comb]'},
         modifies=['GLOBAL_PRIOR_COMB_COUNTS'],
@@ -157,5 +158,73 @@ CONTRACTS = {
             ('fair', 'all(GLOBAL_PRIOR_COMB_COUNTS[L[i]] - GLOBAL_PRIOR_COMB_COUNTS[L[j]] <= 1 '
                      'for i in range(len(L)) for j in range(len(L)))'),
         ],
+    ),
+
+    'mixed_rank_graph': dict(
+        strings='opaque',
+        params={'input_dataframe': {'__class__': 'DataFrame', 'columns': 'list[str]', 'nrows': 'int', 'data': 'FrameData',
+                                    'cells': 'const:"str"'},
+                'args': dict(ARGS_COMB, reference_model_JSON='str', mi_stratified_sampling_ratio='real'),
+                'cpu_pool': {'__class__': 'Pool'}, 'pbar': {'__class__': 'pbar'}},
+        globals={'GLOBAL_PRIOR_COMB_COUNTS': 'counter[tuple[str,str]]'},
+        modifies=['GLOBAL_PRIOR_COMB_COUNTS', 'param:args.combination_number_upper_bound'],
+        constructors={'BatchRankingSummary': ['triplet_scores', 'step_times']},
+        local_kinds={'triplets': 'list[tuple[str,str,real]]', 'final_triplets': 'list[tuple[str,str,real]]',
+                     'final_constant_imp': 'list[tuple[str,str,real]]', 'out_time_struct': 'dict[str,real]'},
+        abstract={
+            "tmp_df = input_dataframe.copy().astype('category')": dict(var='tmp_df', kind={'__class__': 'DataFrame', 'columns': 'list[str]', 'nrows': 'int', 'data': 'FrameData', 'cells': 'const:"str"'}, facts=[]),
+            'tmp_df = pd.DataFrame({k: tmp_df[k].cat.codes': dict(
+                var='tmp_df',
+                kind={'__class__': 'DataFrame', 'columns': 'list[str]', 'nrows': 'int', 'data': 'FrameData', 'cells': 'const:"int"'},
+                facts=[('columns', 'same_seq(tmp_df.columns, input_dataframe.columns)'),
+                       ('rows', 'tmp_df.nrows == input_dataframe.nrows'),
+                       # astype('category').cat.codes: an injective coding of each column's values, 0 <= code < #categories
+                       ('coding', 'forall(lambda c: all((tmp_df[c].values[i] == tmp_df[c].values[j]) == '
+                                  '(input_dataframe[c].values[i] == input_dataframe[c].values[j]) '
+                                  'for i in range(tmp_df.nrows) for j in range(tmp_df.nrows)), "str")'),
+                       ('codes', 'forall(lambda c: all(0 <= tmp_df[c].values[i] and tmp_df[c].values[i] < 2**20 '
+                                 'for i in range(tmp_df.nrows)), "str")')]),
+        },
+        requires=[
+            ('distinct_names', 'all(input_dataframe.columns[i] != input_dataframe.columns[j] '
+                               'for j in range(len(input_dataframe.columns)) for i in range(j))'),
+            ('label_present', 'args.label_column in input_dataframe.columns'),
+            ('cap', 'args.combination_number_upper_bound >= 0'),
+            ('no_reference_model', 'args.reference_model_JSON == ""'),
+            ('rows', 'input_dataframe.nrows >= 1 and input_dataframe.nrows <= 10**6'),
+            ('ratio', '0 < args.mi_stratified_sampling_ratio and args.mi_stratified_sampling_ratio <= 1'),
+        ],
+        returns={'__class__': 'BatchRankingSummary'},
+        ghost_out={'g_eval': 'list[tuple[str,str]]', 'g_coded': {'__class__': 'DataFrame', 'columns': 'list[str]', 'nrows': 'int', 'data': 'FrameData', 'cells': 'const:"int"'}},
+        ghost_bind={'g_eval': 'combinations', 'g_coded': 'tmp_df'},
+        ensures=[
+            ('names_in_space', 'all((g_eval[t][0] in input_dataframe.columns) and (g_eval[t][1] in input_dataframe.columns) '
+                               'for t in range(len(g_eval)))'),
+            ('capped', 'len(g_eval) <= args.combination_number_upper_bound'),
+            ('constant_once', 'implies(args.heuristic == "Constant", len(result.triplet_scores) == len(g_eval) and '
+                              'all(result.triplet_scores[t][0] == g_eval[t][0] and result.triplet_scores[t][1] == g_eval[t][1] '
+                              'and result.triplet_scores[t][2] == 0 for t in range(len(g_eval))))'),
+            ('both_orientations', 'implies(args.heuristic != "Constant", len(result.triplet_scores) == 2 * len(g_eval) and '
+                                  'all(result.triplet_scores[2 * t][0] == g_eval[t][1] and result.triplet_scores[2 * t][1] == g_eval[t][0] '
+                                  'and result.triplet_scores[2 * t + 1][0] == g_eval[t][0] and result.triplet_scores[2 * t + 1][1] == g_eval[t][1] '
+                                  'and result.triplet_scores[2 * t][2] == result.triplet_scores[2 * t + 1][2] for t in range(len(g_eval))))'),
+            ('score_is_selected_heuristic', 'implies(args.heuristic != "Constant", all(result.triplet_scores[2 * t + 1][2] == '
+                                            'pair_score(g_eval[t][0], g_eval[t][1], g_coded, args) for t in range(len(g_eval))))'),
+        ],
+        loops={
+            1: dict(index='k1', inv=[
+                ('rows', 'len(final_constant_imp) == k1 and all(final_constant_imp[t][0] == combinations[t][0] and '
+                         'final_constant_imp[t][1] == combinations[t][1] and final_constant_imp[t][2] == 0 for t in range(k1))'),
+            ]),
+            2: dict(inv=[]),
+            3: dict(index='k3', inv=[
+                ('mirrored', 'len(final_triplets) == 2 * k3 and all('
+                             'final_triplets[2 * t][0] == k3_seq[t][1] and final_triplets[2 * t][1] == k3_seq[t][0] and '
+                             'final_triplets[2 * t][2] == k3_seq[t][2] and final_triplets[2 * t + 1][0] == k3_seq[t][0] and '
+                             'final_triplets[2 * t + 1][1] == k3_seq[t][1] and final_triplets[2 * t + 1][2] == k3_seq[t][2] '
+                             'for t in range(k3))'),
+                ('alias', 'implies(k3 >= 1, same_seq(triplets, final_triplets)) and implies(k3 == 0, same_seq(triplets, k3_seq))'),
+            ]),
+        },
     ),
 }
